@@ -38,7 +38,12 @@ impl<R> Crc32Reader<R> {
 
 impl<R: Read> Read for Crc32Reader<R> {
     fn read(&mut self, buf: &mut [u8]) -> io::Result<usize> {
-        let invalid_check = !buf.is_empty() && !self.check_matches() && !self.ae2_encrypted;
+        // A zero-length read says nothing about end-of-file and must not reach the decoder:
+        // some decoders (zstd) report an error when asked to fill an empty buffer.
+        if buf.is_empty() {
+            return Ok(0);
+        }
+        let invalid_check = !self.check_matches() && !self.ae2_encrypted;
 
         let count = match self.inner.read(buf) {
             Ok(0) if invalid_check => {
